@@ -59,6 +59,7 @@ func (c *c05) Cases(tier string, seed int64) []core.Case {
 		if i < 2 || tier == "thorough" {
 			cs = append(cs, core.MkCase(fmt.Sprintf("illegal-slice-size-%d", i), c05Params{r.Int63(), "illegal-slice-size"}))
 			cs = append(cs, core.MkCase(fmt.Sprintf("refusable-input-%d", i), c05Params{r.Int63(), "refusable-input"}))
+			cs = append(cs, core.MkCase(fmt.Sprintf("recreate-changed-tail-%d", i), c05Params{r.Int63(), "recreate-changed-tail"}))
 		}
 		cs = append(cs, core.MkCase(fmt.Sprintf("unreadable-input-%d", i), c05Params{r.Int63(), "unreadable-input"}))
 		if i < 3 || tier == "thorough" && i < 20 {
@@ -82,6 +83,10 @@ func (c *c05) Run(cs core.Case) core.Result {
 	rng := rand.New(rand.NewSource(p.Seed))
 	if p.Kind == "illegal-slice-size" {
 		c.runIllegalSliceSize(r, rng)
+		return r.Done()
+	}
+	if p.Kind == "recreate-changed-tail" {
+		c.runRecreateChangedTail(r, rng)
 		return r.Done()
 	}
 	if p.Kind == "refusable-input" {
@@ -554,4 +559,70 @@ func (c *c05) runRefusableInput(r *core.R, rng *rand.Rand) {
 		r.Key("refusable-input|%s|refused=%v", variant, cerr != nil)
 	}
 	r.Sample(map[string]interface{}{"kind": "refusable-input", "variants": "latin1-name, utf8-name, empty-file-first, empty-file-last, control-char-name"})
+}
+
+// runRecreateChangedTail: files larger than 16 KiB are protected, then edited
+// behind their first 16 KiB without changing their length (same names, same
+// lengths, same 16k hashes: the same file IDs and recovery set ID) and
+// protected again by a second Create in this process. Both sets are judged
+// against the contents they were created from.
+func (c *c05) runRecreateChangedTail(r *core.R, rng *rand.Rand) {
+	root, err := os.MkdirTemp("", "c05re-")
+	if err != nil {
+		r.Inconclusive("tempdir: %v", err)
+		return
+	}
+	defer os.RemoveAll(root)
+	slice := 4 * (250 + rng.Intn(500))
+	blocks := 2 + rng.Intn(4)
+	var in []par2rw.InFile
+	for i := 0; i < 2+rng.Intn(2); i++ {
+		in = append(in, par2rw.InFile{Name: fmt.Sprintf("doc%d.bin", i), Data: scen.GenData(rng, "random", 16384+100+rng.Intn(9000), slice)})
+	}
+	for round := 0; round < 3; round++ {
+		dir := filepath.Join(root, fmt.Sprintf("gen%d", round%2)) // the third round re-uses the first directory
+		os.MkdirAll(dir, 0755)
+		var paths []string
+		for _, f := range in {
+			os.WriteFile(filepath.Join(dir, f.Name), f.Data, 0644)
+			paths = append(paths, filepath.Join(dir, f.Name))
+		}
+		var cerr error
+		if pi := core.Protect(func() {
+			cerr = par2.Create(filepath.Join(dir, "docs.par2"), paths, par2.CreateOptions{SliceByteCount: slice, NumParityShards: blocks, NumGoroutines: 1 + rng.Intn(3)})
+		}); pi != nil {
+			r.Violate("create-panic|"+pi.Frame, "Create, generation %d: %s", round, pi.Msg)
+			return
+		}
+		if cerr != nil {
+			r.Violate("create-failed", "generation %d: %v", round, cerr)
+			return
+		}
+		var created []par2rw.CreatedFile
+		ents, _ := os.ReadDir(dir)
+		for _, de := range ents {
+			if strings.HasPrefix(de.Name(), "docs.") {
+				b, _ := os.ReadFile(filepath.Join(dir, de.Name()))
+				created = append(created, par2rw.CreatedFile{Name: de.Name(), Data: b})
+			}
+		}
+		problems, _ := par2rw.ValidateCreated(slice, in, blocks, "docs.par2", created, true)
+		for i, pr := range problems {
+			if i >= 3 {
+				break
+			}
+			r.Violate("nonconformant|"+classify(pr), "generation %d (same names, lengths and first 16 KiB as the set created before in this process): %s", round, pr)
+		}
+		r.Count("recreated_sets", 1)
+		// edit the tails for the next generation
+		for i := range in {
+			d := append([]byte(nil), in[i].Data...)
+			for k := 16384 + rng.Intn(50); k < len(d); k += 1 + rng.Intn(40) {
+				d[k] ^= byte(1 + rng.Intn(255))
+			}
+			in[i].Data = d
+		}
+	}
+	r.Key("recreate-changed-tail|%d|%d", slice, blocks)
+	r.Sample(map[string]interface{}{"kind": "recreate-changed-tail", "slice": slice, "blocks": blocks, "files": len(in)})
 }
